@@ -35,25 +35,39 @@ func cmdBreak(p *lang.Process) error {
 
 func breakUpwards(p *lang.Process, name string, exitNum int) error {
 	scope := p.Scope.Id
-	proc := p.Parent
-	for {
-		proc.ExitNum = exitNum
-		proc.KillForks(exitNum)
-		proc.Done()
+
+	// Find the blocks to end first...
+	var (
+		blocks []*lang.Process
+		err    error
+	)
+	for proc := p.Parent; ; proc = proc.Parent {
+		blocks = append(blocks, proc)
 
 		if proc.Name.String() == name {
-			return nil
+			break
 		}
 
 		if proc.Id == scope {
-			return fmt.Errorf(
+			err = fmt.Errorf(
 				"no block found named `%s` within the scope of `%s`",
 				name, p.Scope.Name.String(),
 			)
+			break
 		}
-
-		proc = proc.Parent
 	}
+
+	// ...then end the outermost one first. Ending them from the inside out
+	// lets the code around an inner block see that block finish and carry on
+	// (eg a loop tests its condition again, the commands after the loop start)
+	// before the outer blocks have been cancelled.
+	for i := len(blocks) - 1; i >= 0; i-- {
+		blocks[i].ExitNum = exitNum
+		blocks[i].KillForks(exitNum)
+		blocks[i].Done()
+	}
+
+	return err
 }
 
 func cmdContinue(p *lang.Process) error {
